@@ -223,6 +223,12 @@ class Oracle(Q.QOracle):
       mx = np.full(n, -np.inf)
       np.maximum.at(mx, g, xs)
       is_max = (xs >= mx[g]) & (mx[g] > 1e-4)
+    # "well above the epsilon floor": the scale the library derives is
+    # maximum / 2^integer / top code, clamped to epsilon (1e-7); a channel is
+    # judged only when that value is at least ten times the clamp
+    top_code = max(abs(f["lo"]), abs(f["hi"]), 1.0)
+    integer = float(spec["kw"].get("integer", 0))
+    is_max = is_max & (mx[g] / 2.0 ** integer / top_code > 1e-6)
     if not is_max.any():
       return None
     unit = (sb * f["step"]).reshape(-1)
